@@ -10,7 +10,7 @@
 (* exactly when its tag enters h.viol, so each property has one definition *)
 (* that judges both the model and the implementation.                      *)
 (***************************************************************************)
-EXTENDS Naturals, Sequences, FiniteSets, TLC
+EXTENDS Integers, Sequences, FiniteSets, TLC
 
 CONSTANTS OpTab,      \* op id -> [k, o, g, aw, body, panic, block, f, then, n, t, par]
           NObj,       \* number of Desync objects
@@ -121,7 +121,9 @@ ObsRet(h, t, op, c) ==
 (***************************************************************************)
 ObsStart(h, t, op) ==
   LET o  == O(op)
-      h1 == [h EXCEPT !.scnt[op] = IF @ < 2 THEN @ + 1 ELSE @, !.act[o] = @ \cup {op}]
+      \* futures that this operation's own future awaits (nested awaits) count as awaited from now on
+      h1 == [h EXCEPT !.scnt[op] = IF @ < 2 THEN @ + 1 ELSE @, !.act[o] = @ \cup {op},
+                      !.polled = @ \cup {0 - OpTab[op].aw[i] : i \in {j \in 1..Len(OpTab[op].aw) : OpTab[op].aw[j] < 0}}]
       h2 == Viol(h1, h.act[o] # {}, "C01:overlap")
       h3 == Viol(h2, ~(\A a \in h.before[op] : Finished(h, a)), "C02:order")
       h4 == Viol(h3, h.scnt[op] >= 1, "C03:ran-twice")
@@ -235,7 +237,7 @@ ObsOutEnd(h, p) ==
 (***************************************************************************)
 \* An object is legitimately stuck if one of its accepted operations cannot finish for an external reason
 GateOf(a) == OpTab[a].aw
-WaitsUnfired(h, a) == (\E i \in 1..Len(GateOf(a)) : GateOf(a)[i] \notin h.fired) \/ (OpTab[a].block # 0 /\ OpTab[a].block \notin h.fired) \/ (K(a) = "after" /\ OpTab[a].g \notin h.fired)
+WaitsUnfired(h, a) == (\E i \in 1..Len(GateOf(a)) : GateOf(a)[i] > 0 /\ GateOf(a)[i] \notin h.fired) \/ (OpTab[a].block # 0 /\ OpTab[a].block \notin h.fired) \/ (K(a) = "after" /\ OpTab[a].g \notin h.fired)
 UnresumedSusp(h, o) == \E s \in Ops : K(s) = "suspend" /\ O(s) = o /\ s \in h.called /\ s \notin h.resumed
 StuckObj(h, o) == \/ \E a \in Ops : O(a) = o /\ a \in h.called /\ a \notin h.ended /\ WaitsUnfired(h, a)
                   \/ UnresumedSusp(h, o)
